@@ -16,6 +16,11 @@ const (
 	e2eRealm2     = "other realm 9"
 	e2eRedirectTo = "https://login.test/signin?m=GET"
 	e2eRedirCode  = 303
+	// realms configured at the rule level
+	e2eRuleRealmA = "rule level A1"
+	e2eRuleRealmB = "rule level B2"
+	e2eRuleRealmC = "rule level C3"
+	e2eRuleRealmD = "rule level D4"
 )
 
 // outcome code of the probe -> response class of the statement
@@ -51,29 +56,80 @@ type e2eCase struct {
 	HandlerRan string           `json:"error_handler_that_ran"`
 	Expected   string           `json:"expected"`
 	Observed   e2eObs           `json:"observed"`
+	// cases of e2e_real_test.go: where the expression is used, the expression and the request data
+	Position   string    `json:"expression_used_as,omitempty"`
+	Expression string    `json:"expression,omitempty"`
+	Data       *realData `json:"request_data,omitempty"`
+	Method     string    `json:"method,omitempty"`
 }
 
 type e2eRule struct {
 	id, path string
 	onError  []config.MechanismConfig
 	text     []string
+	// realm configured at the rule level for a www_authenticate handler of the catalogue (handler id -> realm); a handler
+	// not listed here answers with the realm of its catalogue entry
+	realms map[string]string
+	// pipeline of the rule; nil: anonymous authenticator, probe authorizer z1, noop finalizer
+	exec []config.MechanismConfig
+}
+
+// realms of the www_authenticate handlers of the catalogue ("wwwdef" is configured without a realm)
+var catalogueRealms = map[string]string{"www": e2eRealm, "www2": e2eRealm2, "wwwdef": "Please authenticate"}
+
+// realmOf returns the realm the www_authenticate handler h has to name when it runs for the given rule: the realm
+// the rule configured for it, otherwise the realm of the catalogue entry.
+func realmOf(rule, h string) string {
+	for _, set := range [][]e2eRule{e2eRules, realRules} {
+		for _, rl := range set {
+			if rl.id == rule {
+				if v, ok := rl.realms[h]; ok {
+					return v
+				}
+			}
+		}
+	}
+	return catalogueRealms[h]
+}
+
+func override(h string, conf map[string]any, cond string) config.MechanismConfig {
+	m := config.MechanismConfig{"error_handler": h, "config": conf}
+	if cond != "" {
+		m["if"] = cond
+	}
+	return m
 }
 
 var e2eRules = []e2eRule{
-	{"r-def", "/def/:x", []config.MechanismConfig{{"error_handler": "def"}}, []string{"def"}},
-	{"r-www", "/www/:x", []config.MechanismConfig{{"error_handler": "www"}}, []string{"www"}},
-	{"r-www2", "/www2/:x", []config.MechanismConfig{{"error_handler": "www2"}}, []string{"www2"}},
-	{"r-redir", "/redir/:x", []config.MechanismConfig{{"error_handler": "redir"}}, []string{"redir"}},
+	{"r-def", "/def/:x", []config.MechanismConfig{{"error_handler": "def"}}, []string{"def"}, nil, nil},
+	{"r-www", "/www/:x", []config.MechanismConfig{{"error_handler": "www"}}, []string{"www"}, nil, nil},
+	{"r-www2", "/www2/:x", []config.MechanismConfig{{"error_handler": "www2"}}, []string{"www2"}, nil, nil},
+	{"r-redir", "/redir/:x", []config.MechanismConfig{{"error_handler": "redir"}}, []string{"redir"}, nil, nil},
 	{"r-cond", "/cond/:x", []config.MechanismConfig{
 		{"error_handler": "www", "if": "type(Error) == authentication_error"},
 		{"error_handler": "redir", "if": "type(Error) == authorization_error"},
 		{"error_handler": "def"},
-	}, []string{"www if authentication_error", "redir if authorization_error", "def"}},
+	}, []string{"www if authentication_error", "redir if authorization_error", "def"}, nil, nil},
 	// only conditional handlers: for most failures none of them applies, the failure is then answered by its kind
 	{"r-condonly", "/condonly/:x", []config.MechanismConfig{
 		{"error_handler": "www", "if": "type(Error) == authentication_error"},
 		{"error_handler": "redir", "if": "type(Error) == authorization_error"},
-	}, []string{"www if authentication_error", "redir if authorization_error"}},
+	}, []string{"www if authentication_error", "redir if authorization_error"}, nil, nil},
+	// rule level configuration of catalogue handlers: the challenge has to name the realm of the rule. The catalogue
+	// entries stay in use by the rules above (same instance), so an override must not leak into them either.
+	{"r-wwwov", "/wwwov/:x", []config.MechanismConfig{override("www", map[string]any{"realm": e2eRuleRealmA}, "")},
+		[]string{"www with realm " + e2eRuleRealmA}, map[string]string{"www": e2eRuleRealmA}, nil},
+	{"r-wwwdef", "/wwwdef/:x", []config.MechanismConfig{{"error_handler": "wwwdef"}}, []string{"wwwdef (no realm configured)"}, nil, nil},
+	{"r-wwwdefov", "/wwwdefov/:x", []config.MechanismConfig{override("wwwdef", map[string]any{"realm": e2eRuleRealmB}, "")},
+		[]string{"wwwdef with realm " + e2eRuleRealmB}, map[string]string{"wwwdef": e2eRuleRealmB}, nil},
+	{"r-condov", "/condov/:x", []config.MechanismConfig{
+		override("www", map[string]any{"realm": e2eRuleRealmC}, "type(Error) == authentication_error"),
+		{"error_handler": "www2", "if": "type(Error) == authorization_error"},
+		override("wwwdef", map[string]any{"realm": e2eRuleRealmD}, ""),
+	}, []string{"www with realm " + e2eRuleRealmC + " if authentication_error", "www2 if authorization_error", "wwwdef with realm " + e2eRuleRealmD},
+		map[string]string{"www": e2eRuleRealmC, "wwwdef": e2eRuleRealmD}, nil},
+	// an override which configures nothing keeps the catalogue realm
+	{"r-wwwempty", "/wwwempty/:x", []config.MechanismConfig{override("www2", map[string]any{}, "")}, []string{"www2 with an empty config"}, nil, nil},
 }
 
 type entryPoint struct {
@@ -82,7 +138,7 @@ type entryPoint struct {
 	envoy *app.Envoy
 }
 
-func startEntryPoints(cfg optsCfg, probes *app.Probes, upstream string) ([]*entryPoint, error) {
+func startEntryPoints(cfg optsCfg, probes *app.Probes, upstream, remote string) ([]*entryPoint, error) {
 	var eps []*entryPoint
 	for _, svc := range []string{app.SvcDecision, app.SvcProxy, app.SvcGRPC} {
 		svc := svc
@@ -96,7 +152,10 @@ func startEntryPoints(cfg optsCfg, probes *app.Probes, upstream string) ([]*entr
 				config.Mechanism{ID: "redir", Type: "redirect", Config: config.MechanismConfig{"to": "https://login.test/signin?m={{ .Request.Method }}", "code": e2eRedirCode}},
 				config.Mechanism{ID: "www", Type: "www_authenticate", Config: config.MechanismConfig{"realm": e2eRealm}},
 				config.Mechanism{ID: "www2", Type: "www_authenticate", Config: config.MechanismConfig{"realm": e2eRealm2}},
+				config.Mechanism{ID: "wwwdef", Type: "www_authenticate"},
 			)
+			// real authorizers whose expressions are evaluated on the data of the request (e2e_real_test.go)
+			c.Prototypes.Authorizers = append(c.Prototypes.Authorizers, realAuthorizers(remote)...)
 			sc := &c.Serve.Decision
 			if svc == app.SvcProxy {
 				sc = &c.Serve.Proxy
@@ -115,14 +174,20 @@ func startEntryPoints(cfg optsCfg, probes *app.Probes, upstream string) ([]*entr
 		ep := &entryPoint{name: svc, a: a}
 		eps = append(eps, ep)
 		var rules []rconfig.Rule
-		for _, rl := range e2eRules {
-			rules = append(rules, rconfig.Rule{
-				ID:           rl.id,
-				Matcher:      rconfig.Matcher{Routes: []rconfig.Route{{Path: rl.path}}},
-				Backend:      &rconfig.Backend{Host: upstream},
-				Execute:      []config.MechanismConfig{{"authenticator": "anon"}, {"authorizer": "probe:z1"}, {"finalizer": "noop"}},
-				ErrorHandler: rl.onError,
-			})
+		for _, set := range [][]e2eRule{e2eRules, realRules} {
+			for _, rl := range set {
+				exec := rl.exec
+				if exec == nil {
+					exec = []config.MechanismConfig{{"authenticator": "anon"}, {"authorizer": "probe:z1"}, {"finalizer": "noop"}}
+				}
+				rules = append(rules, rconfig.Rule{
+					ID:           rl.id,
+					Matcher:      rconfig.Matcher{Routes: []rconfig.Route{{Path: rl.path}}},
+					Backend:      &rconfig.Backend{Host: upstream},
+					Execute:      exec,
+					ErrorHandler: rl.onError,
+				})
+			}
 		}
 		if err := a.Proc.OnCreated(&rconfig.RuleSet{Version: "1alpha4", Name: "c12", MetaData: rconfig.MetaData{Source: "c12", Hash: []byte(core.Hash(rules))}, Rules: rules}); err != nil {
 			return eps, fmt.Errorf("%s: rule set: %w", svc, err)
@@ -144,12 +209,25 @@ func (ep *entryPoint) stop() {
 }
 
 func (ep *entryPoint) do(path, plan, reqID string, accept []string) (e2eObs, error) {
+	return ep.doReq("GET", path, plan, reqID, accept, nil, "")
+}
+
+// doReq sends one logical request: target is path and query, extra holds further request headers (sent in sorted order).
+func (ep *entryPoint) doReq(method, target, plan, reqID string, accept []string, extra map[string]string, body string) (e2eObs, error) {
+	names := make([]string, 0, len(extra))
+	for k := range extra {
+		names = append(names, k)
+	}
+	sort.Strings(names)
 	if ep.envoy != nil {
 		h := map[string]string{app.HdrPlan: plan, app.HdrReq: reqID}
 		if len(accept) > 0 {
 			h["accept"] = strings.Join(accept, ",")
 		}
-		res := ep.envoy.Check("GET", "http", "svc.test", path, h, "", nil)
+		for _, k := range names {
+			h[k] = extra[k]
+		}
+		res := ep.envoy.Check(method, "http", "svc.test", target, h, body, nil)
 		var all []string
 		for _, h := range res.Headers {
 			if strings.EqualFold(h[0], "WWW-Authenticate") {
@@ -164,7 +242,14 @@ func (ep *entryPoint) do(path, plan, reqID string, accept []string) (e2eObs, err
 	for _, a := range accept {
 		hdrs = append(hdrs, app.Hdr{Name: "Accept", Value: a})
 	}
-	res, err := app.RawDo(ep.a.Addr(), "GET", path, "svc.test", hdrs, nil)
+	for _, k := range names {
+		hdrs = append(hdrs, app.Hdr{Name: k, Value: extra[k]})
+	}
+	var raw []byte
+	if body != "" {
+		raw = []byte(body)
+	}
+	res, err := app.RawDo(ep.a.Addr(), method, target, "svc.test", hdrs, raw)
 	if err != nil {
 		return e2eObs{}, err
 	}
@@ -177,6 +262,8 @@ func (ep *entryPoint) do(path, plan, reqID string, accept []string) (e2eObs, err
 func c12E2E(r *core.Run) {
 	up := app.NewUpstream()
 	defer up.Close()
+	remote := newRemoteEcho()
+	defer remote.Close()
 	cfgs := []optsCfg{
 		{Verbose: false, Overrides: map[string]int{}},
 		{Verbose: true, Overrides: map[string]int{"authentication": 470, "authorization": 471, "communication": 572, "precondition": 473, "no_rule": 474, "internal": 575}},
@@ -202,7 +289,7 @@ func c12E2E(r *core.Run) {
 	www := map[wwwKey]map[string]e2eCase{}
 	for ci, cfg := range cfgs {
 		probes := app.NewProbes()
-		eps, err := startEntryPoints(cfg, probes, up.HostPort())
+		eps, err := startEntryPoints(cfg, probes, up.HostPort(), remote.URL)
 		if err != nil {
 			for _, ep := range eps {
 				ep.stop()
@@ -243,6 +330,9 @@ func c12E2E(r *core.Run) {
 				}
 			}
 		}
+		// failures produced by real mechanisms evaluating expressions on the data of the request
+		seq = realFailures(r, ci, cfg, eps, probes, up, st, seq)
+		redirectOverride(r, ci, cfg, eps, probes, up.HostPort(), st)
 		for _, ep := range eps {
 			ep.stop()
 		}
@@ -350,9 +440,12 @@ func judgeE2E(r *core.Run, c *e2eCase, outcome string, st *stats) {
 		c.HandlerRan = "def" // no handler of the rule applies: the service translates the failure itself, exactly as the default handler does
 	}
 	switch c.HandlerRan {
-	case "www", "www2":
+	case "www", "www2", "wwwdef":
 		want := status("authentication")
-		e2eRealm := map[string]string{"www": e2eRealm, "www2": e2eRealm2}[c.HandlerRan]
+		e2eRealm := realmOf(c.Rule, c.HandlerRan)
+		if e2eRealm != catalogueRealms[c.HandlerRan] {
+			st.add("www_cases_realm_of_the_rule", 1)
+		}
 		c.Expected = fmt.Sprintf("%d with WWW-Authenticate naming realm %q (and no other realm)", want, e2eRealm)
 		st.add("www_cases", 1)
 		switch {
@@ -398,7 +491,13 @@ func judgeE2E(r *core.Run, c *e2eCase, outcome string, st *stats) {
 		r.Inconclusive(fmt.Sprintf("e2e: no error handler recorded for %s %s %s: trace %v", c.Entry, c.Rule, outcome, c.Trace))
 		return
 	}
-	// body rules
+	judgeBody(c, st, fail)
+}
+
+// judgeBody applies the body rules to one answered failure: no details unless verbose responses are enabled, and then a
+// document of a type the request accepts.
+func judgeBody(c *e2eCase, st *stats, fail func(sig, what string)) {
+	o := c.Observed
 	if o.Body == "" {
 		st.add("no_body", 1)
 		return
